@@ -132,7 +132,11 @@ def resample(image, target, mapping, shape, order=3, mode='constant',
         TV2IV = compose(image.coordmap.inverse(), TV2IW)
         if isinstance(TV2IV, AffineTransform): # still affine
             A, b = to_matvec(TV2IV.affine)
-            idata = affine_transform(image.get_fdata(), A,
+            # interpolate in floating point, as ImageInterpolator does: ndimage
+            # returns the input's dtype, which would round the interpolated
+            # values (and cast cval) for integer-typed image data
+            idata = affine_transform(np.asarray(image.get_fdata(),
+                                                dtype=np.float64), A,
                                      offset=b,
                                      output_shape=shape,
                                      order=order,
